@@ -235,6 +235,9 @@ func checkC18(p *Program, r *Report) {
 
 	// R2: arguments of Execute
 	args := ex.Call.Args
+	if len(args) == 3 {
+		c18Source(p, r, rname, ex, args[2])
+	}
 	okOpt := len(args) == 3 && isNilConst(args[1])
 	r.Check(okOpt, "C18.R2", rname+"|nil options", p.Pos(ex.Pos()), "default (non-debug) options", "the command runs scripts with options other than the library default")
 	var envG *ssa.Global
@@ -579,4 +582,133 @@ func c18ArgsOrder(p *Program, r *Report, sp *ssa.Package, modPath string) {
 	}
 	r.Check(bad == "" && (len(assignCalls) > 0 || len(assigners) == 0), "C18.R2", "main|arguments parsed before they are bound", p.Pos(instrPos(bindCall)), "the variable holding the script arguments is assigned before the environment binds it",
 		"the environment binds the script arguments before the command line is parsed (the assignment at "+bad+" comes later): every script sees an empty args")
+}
+
+// c18Source (R2): the source text handed to vm.Execute is a command-line string as it stands or string(b) for b the whole content
+// of a file, obtained by one of the library's read-everything calls (os.ReadFile, ioutil.ReadFile, io.ReadAll / ioutil.ReadAll of
+// the opened file), directly or through a helper of package main that returns just that.
+func c18Source(p *Program, r *Report, rname string, ex *ssa.Call, src ssa.Value) {
+	r.Explain("R2 also: the source handed to vm.Execute is a command-line string or string(b) with b from a read-everything call (os.ReadFile, ioutil.ReadFile, io.ReadAll, ioutil.ReadAll), possibly through a helper of package main.")
+	var leaves []ssa.Value
+	seen := map[ssa.Value]bool{}
+	var walk func(v ssa.Value)
+	walk = func(v ssa.Value) {
+		if seen[v] {
+			return
+		}
+		seen[v] = true
+		if sv := spilledValue(v); sv != nil {
+			walk(sv)
+			return
+		}
+		if ph, ok := v.(*ssa.Phi); ok {
+			for _, e := range ph.Edges {
+				walk(e)
+			}
+			return
+		}
+		leaves = append(leaves, v)
+	}
+	walk(src)
+	nFile := 0
+	for _, l := range leaves {
+		if u, ok := l.(*ssa.UnOp); ok {
+			if _, isG := u.X.(*ssa.Global); isG {
+				continue // the -e text
+			}
+		}
+		cv, ok := l.(*ssa.Convert)
+		if !ok {
+			r.Undecided("C18.R2", rname+"|source text", p.Pos(ex.Pos()), "the source given to vm.Execute is neither a command-line string nor string(bytes read from the file)")
+			return
+		}
+		nFile++
+		why := wholeFileRead(cv.X, 0)
+		r.Check(why == "", "C18.R2", fmt.Sprintf("%s|source is the whole file #%d", rname, nFile), p.Pos(cv.Pos()), "the bytes come from a read-everything call on the script file",
+			"the script text is not the result of a read-everything call ("+why+"): a file whose length is not known beforehand (pipe, /dev/stdin, process substitution) is cut short, so the command runs a different program than vm.Execute on the same source")
+	}
+	if nFile == 0 {
+		r.Undecided("C18.R2", rname+"|source text", p.Pos(ex.Pos()), "no file-reading branch feeds vm.Execute")
+	}
+}
+
+// wholeFileRead: "" when byte slice v is the complete content of a file by construction.
+func wholeFileRead(v ssa.Value, depth int) string {
+	if depth > 4 {
+		return "helper chain too deep"
+	}
+	if sv := spilledValue(v); sv != nil {
+		v = sv
+	}
+	// a result variable (functions with defers return through one): every value stored into it
+	if u, ok := v.(*ssa.UnOp); ok {
+		if al, ok := u.X.(*ssa.Alloc); ok {
+			n := 0
+			for _, ref := range *al.Referrers() {
+				switch x := ref.(type) {
+				case *ssa.Store:
+					if x.Addr == ssa.Value(al) {
+						n++
+						if w := wholeFileRead(x.Val, depth+1); w != "" {
+							return w
+						}
+					}
+				case *ssa.UnOp:
+				default:
+					return "the buffer variable escapes"
+				}
+			}
+			if n > 0 {
+				return ""
+			}
+		}
+	}
+	if ph, ok := v.(*ssa.Phi); ok {
+		for _, e := range ph.Edges {
+			if w := wholeFileRead(e, depth+1); w != "" {
+				return w
+			}
+		}
+		return ""
+	}
+	if c, ok := v.(*ssa.Const); ok && c.IsNil() {
+		return ""
+	}
+	ext, ok := v.(*ssa.Extract)
+	if !ok || ext.Index != 0 {
+		return "the buffer is built by hand"
+	}
+	call, ok := ext.Tuple.(*ssa.Call)
+	if !ok {
+		return "the buffer is built by hand"
+	}
+	o := calleeObj(call)
+	switch {
+	case isFuncNamed(o, "os", "", "ReadFile"), isFuncNamed(o, "io/ioutil", "", "ReadFile"):
+		return ""
+	case isFuncNamed(o, "io", "", "ReadAll"), isFuncNamed(o, "io/ioutil", "", "ReadAll"):
+		return ""
+	}
+	callee := staticCallee(call)
+	if callee == nil || len(callee.Blocks) == 0 {
+		if o != nil {
+			return "bytes come from " + o.FullName()
+		}
+		return "bytes come from a dynamic call"
+	}
+	n := 0
+	for _, b := range callee.Blocks {
+		ret, ok := b.Instrs[len(b.Instrs)-1].(*ssa.Return)
+		if !ok || len(ret.Results) == 0 {
+			continue
+		}
+		n++
+		if w := wholeFileRead(ret.Results[0], depth+1); w != "" {
+			return "in " + callee.Name() + " " + w
+		}
+	}
+	if n == 0 {
+		return callee.Name() + " never returns"
+	}
+	return ""
 }
